@@ -28,12 +28,13 @@ def elems(op):
     if k == "addfrom":
         return [tuple(p) for p in op[1]], op[2], op[3]
     ns = list(op[1]); t = op[2]
+    e = op[3] if len(op) > 3 else None
     if k in ("path", "fpath"):
-        return list(zip(ns[:-1], ns[1:])), t, None
+        return list(zip(ns[:-1], ns[1:])), t, e
     if k in ("star", "fstar"):
-        return [(ns[0], n) for n in ns[1:]] if ns else [], t, None
+        return [(ns[0], n) for n in ns[1:]] if ns else [], t, e
     if k in ("cycle", "fcycle"):
-        return list(zip(ns, ns[1:] + ns[:1])) if ns else [], t, None
+        return list(zip(ns, ns[1:] + ns[:1])) if ns else [], t, e
     return None
 
 
